@@ -175,3 +175,21 @@ CHECKS["C16"] = {
          "what": "generated __schema/__type resolvers behind aliases, fragments, inline fragments and @include variables with DisableIntrospection symbolic"},
     ],
 }
+
+CHECKS["C20"] = {
+    "prepare": probes.prepare,
+    "assumptions": ["federation probe schema: two single-lookup keys (Alpha), a batch type with two keys (Beta, multi), nested key (Gamma), @requires (Delta)",
+                    "expected element i is computed from representation i alone (and the fault table)"],
+    "harnesses": [
+        {"probe": "fed", "harness": "Harness_C20_entities", "setup": "Setup_C20_entities", "reach": ["c20.compared"], "workers": 12, "sched": "first",
+         "configs_quick": ["fed_single"], "configs_thorough": ["fed_single", "fed_follow", "fed_wl2"],
+         "quick": {"params": {"maxreps": 2, "budget": 1}, "sample_models": 40, "sample_every": 17},
+         "thorough": {"params": {"maxreps": 3, "budget": 1}, "sample_models": 120, "sample_every": 211},
+         "what": "generated __resolve_entities on lists of 0..2 (quick) / 0..3 (thorough) representations over 11 shapes with at most one failing lookup (error / panic)"},
+        {"probe": "fed", "harness": "Harness_C20_entities", "setup": "Setup_C20_entities", "reach": ["c20.compared"], "workers": 12, "race": True, "tag": "-sched",
+         "configs_quick": ["fed_single"], "configs_thorough": ["fed_single", "fed_wl2"], "sched_confirm": True,
+         "quick": {"params": {"maxreps": 3, "budget": 1, "shapes": 3, "gated": 1}, "sample_models": 10, "sample_every": 97},
+         "thorough": {"params": {"maxreps": 3, "budget": 1, "shapes": 6, "gated": 1}, "sample_models": 20, "sample_every": 997},
+         "what": "same, every completion order of the per-type groups and per-entity goroutines (3 representations over the first 3 / 6 shapes), with the happens-before race check on the result list"},
+    ],
+}
